@@ -16,6 +16,16 @@ import sys
 import urllib.parse
 
 _real_open = builtins.open
+_real_stat = os.stat
+_real_access = os.access
+
+
+def _fake_stat(is_dir, size, unreadable=False):
+    import stat as st_
+    mode = (st_.S_IFDIR | 0o755) if is_dir else \
+        (st_.S_IFREG | (0o000 if unreadable else 0o644))
+    return os.stat_result((mode, 1, 1, 1, 0, 0, size, 1600000000, 1600000000,
+                           1600000000))
 
 
 class Abort(BaseException):
@@ -52,8 +62,18 @@ class World:
         import urllib.request
         builtins.open = self.fs.open
         io.open = self.fs.open
+        # the rest of the file seam: code may look before it opens
+        # (os.path.exists / isfile / isdir, pathlib, os.access all end here)
+        os.stat = self.fs.stat
+        os.lstat = self.fs.stat
+        os.access = self.fs.access
         time.sleep = self.clock.sleep
         time.time = self.clock.time
+        # every clock a deadline may be computed from is the simulated one
+        time.monotonic = self.clock.time
+        time.perf_counter = self.clock.time
+        time.time_ns = lambda: int(self.clock.time() * 1e9)
+        time.monotonic_ns = lambda: int(self.clock.time() * 1e9)
         subprocess.run = self.peer.subprocess_run
         subprocess.Popen = self.peer.subprocess_popen
         urllib.request.urlopen = self.peer.urlopen
@@ -151,8 +171,61 @@ class SimFS:
         self.budget = budget
         self.written = {}
 
+    def _virtual(self, path):
+        """The plan-relative name of a path served from memory, else None."""
+        if isinstance(path, os.PathLike):
+            path = os.fspath(path)
+        if isinstance(path, bytes):
+            try:
+                path = path.decode('utf-8')
+            except UnicodeDecodeError:
+                return None
+        if not isinstance(path, str) or os.path.isabs(path):
+            return None
+        return path
+
+    def stat(self, path, *a, **kw):
+        name = self._virtual(path)
+        if name is None or kw.get('dir_fd') is not None:
+            return _real_stat(path, *a, **kw)
+        spec = self.files.get(name)
+        if spec is None:
+            # a directory that (virtually) holds registered files
+            if any(n.startswith(name.rstrip('/') + '/') for n in self.files) \
+                    or name in ('.', './', '..', ''):
+                return _fake_stat(True, 0)
+            raise FileNotFoundError(errno.ENOENT, 'No such file or directory',
+                                    name)
+        fault = spec.get('fault') or {}
+        kind = fault.get('kind')
+        if kind == 'ENOENT' or (kind == 'vanish' and
+                                self.opens.get(name, 0) >= fault.get('after_opens', 1)):
+            raise FileNotFoundError(errno.ENOENT, 'No such file or directory',
+                                    name)
+        if kind == 'EISDIR':
+            return _fake_stat(True, 0)
+        from sim import docgen
+        return _fake_stat(False, len(docgen.file_text(spec).encode(
+            spec.get('enc', 'utf-8'))), unreadable=(kind == 'EACCES'))
+
+    def access(self, path, mode, *a, **kw):
+        name = self._virtual(path)
+        if name is None:
+            return _real_access(path, mode, *a, **kw)
+        try:
+            st = self.stat(name)
+        except OSError:
+            return False
+        if mode & os.R_OK and not (st.st_mode & 0o444):
+            return False
+        if mode & os.W_OK:
+            return False
+        return True
+
     def open(self, file, mode='r', buffering=-1, encoding=None, errors=None,
              newline=None, closefd=True, opener=None):
+        if isinstance(file, os.PathLike):
+            file = os.fspath(file)
         if not isinstance(file, str) or os.path.isabs(file):
             return _real_open(file, mode, buffering, encoding, errors,
                               newline, closefd, opener)
@@ -209,6 +282,11 @@ class SimFS:
 # ---------------------------------------------------------------------
 #   the proofreader peer
 # ---------------------------------------------------------------------
+
+def subprocess_timeout(args, timeout):
+    import subprocess
+    return subprocess.TimeoutExpired(args, timeout)
+
 
 def opts_tag(fields):
     """Short stable tag of the normalised request options; part of every
@@ -332,15 +410,49 @@ def apply_answer_fault(answer_obj, fault, cfg):
 
 
 class _Reply:
-    def __init__(self, data):
-        self.data = data
-        self.status = 200
+    """What urlopen() returns, as far as callers may reasonably use it."""
 
-    def read(self):
-        return self.data
+    def __init__(self, data, url=''):
+        self.data = data
+        self.pos = 0
+        self.status = 200
+        self.code = 200
+        self.reason = 'OK'
+        self.msg = 'OK'
+        self.url = url
+        import email.message
+        self.headers = email.message.Message()
+        self.headers['Content-Type'] = 'application/json'
+        self.headers['Content-Length'] = str(len(data))
+
+    def read(self, n=-1):
+        if n is None or n < 0:
+            out, self.pos = self.data[self.pos:], len(self.data)
+        else:
+            out = self.data[self.pos:self.pos + n]
+            self.pos += len(out)
+        return out
+
+    def getcode(self):
+        return 200
+
+    def geturl(self):
+        return self.url
+
+    def info(self):
+        return self.headers
+
+    def getheader(self, name, default=None):
+        return self.headers.get(name, default)
 
     def close(self):
         pass
+
+    def __enter__(self):
+        return self
+
+    def __exit__(self, *a):
+        return False
 
 
 class SimPeer:
@@ -426,8 +538,28 @@ class SimPeer:
             self.started_at = self.world.clock.now
 
         class P:
+            """A server process that keeps running."""
             pid = 4242
-        return P()
+            returncode = None
+            stdout = stderr = stdin = None
+
+            def poll(self):
+                return None
+
+            def wait(self, timeout=None):
+                raise subprocess_timeout(self.args, timeout)
+
+            def terminate(self):
+                pass
+
+            def kill(self):
+                pass
+
+            def communicate(self, *a, **kw):
+                return (b'', b'')
+        p_ = P()
+        p_.args = list(args)
+        return p_
 
     def http_up(self):
         if self.http.get('initially_up'):
